@@ -282,20 +282,24 @@ func rulesC10(c *Ctx) {
 	// ---- R2 memoised -----------------------------------------------------------
 	n2 := 0
 	isFactoryValue := func(v ssa.Value) bool {
-		return hasOrigin(Origins(v, FlowOpts{Interproc: 2}), func(o Origin) bool { return o.Kind == "call" && strings.HasPrefix(o.Name, "dynamic#") })
+		return hasOrigin(Origins(v, FlowOpts{Interproc: 4}), func(o Origin) bool { return o.Kind == "call" && strings.HasPrefix(o.Name, "dynamic#") })
 	}
-	for _, r := range returnsOf(get) {
-		if len(r.Results) != 2 || !isNilConst(resolve(r.Results[1])) {
-			continue
+	getGroupList := privateGroup(c.P, get, true)
+	getGroup := map[*ssa.Function]bool{}
+	for _, g := range getGroupList {
+		getGroup[g] = true
+	}
+	isNameOfGet := func(g *ssa.Function, key ssa.Value) bool {
+		if g == get {
+			return sameValue(key, get.Params[1])
 		}
+		return hasOrigin(Origins(key, FlowOpts{LiftParams: 3}), func(o Origin) bool { return o.Val == ssa.Value(get.Params[1]) })
+	}
+	var storedBefore func(g *ssa.Function, r *ssa.Return, depth int) bool
+	storedBefore = func(g *ssa.Function, r *ssa.Return, depth int) bool {
 		v := resolve(r.Results[0])
-		if !isFactoryValue(v) {
-			continue
-		}
-		n2++
-		con := fmt.Sprintf("factory result returned (success return #%d of Get)", n2)
 		stored := false
-		eachInstr(get, func(_ *ssa.BasicBlock, _ int, in ssa.Instruction) {
+		eachInstr(g, func(_ *ssa.BasicBlock, _ int, in ssa.Instruction) {
 			mu, ok := in.(*ssa.MapUpdate)
 			if !ok {
 				return
@@ -303,11 +307,56 @@ func rulesC10(c *Ctx) {
 			if n, _ := fieldLoadName(mu.Map); n != ro.inst {
 				return
 			}
-			if sameValue(mu.Key, get.Params[1]) && resolve(mu.Value) == v && dominates(mu, r) {
+			if isNameOfGet(g, mu.Key) && resolve(mu.Value) == v && dominates(mu, r) {
 				stored = true
 			}
 		})
-		c.Check(stored, "R2", con, r.Pos(), "stored in the instance table under the requested name before it is returned",
+		if stored || depth > 3 {
+			return stored
+		}
+		// handed on from a private stage: every success return of the stage has stored it
+		if ex, ok := v.(*ssa.Extract); ok {
+			if call, ok := ex.Tuple.(*ssa.Call); ok {
+				if h := call.Call.StaticCallee(); h != nil && getGroup[h] && h != g {
+					all, any := true, false
+					for _, hr := range returnsOf(h) {
+						if len(hr.Results) != 2 || !isNilConst(resolve(hr.Results[1])) {
+							continue
+						}
+						any = true
+						if !storedBefore(h, hr, depth+1) {
+							all = false
+						}
+					}
+					return all && any
+				}
+			}
+		}
+		return false
+	}
+	for _, r := range returnsOf(get) {
+		if len(r.Results) != 2 {
+			continue
+		}
+		if !isNilConst(resolve(r.Results[1])) {
+			// `return d.stage(...)`: the stage's own (instance, error) pair is handed on
+			e0, ok0 := resolve(r.Results[0]).(*ssa.Extract)
+			e1, ok1 := resolve(r.Results[1]).(*ssa.Extract)
+			if !ok0 || !ok1 || e0.Tuple != e1.Tuple {
+				continue
+			}
+			call, isCall := e0.Tuple.(*ssa.Call)
+			if !isCall || call.Call.StaticCallee() == nil || !getGroup[call.Call.StaticCallee()] {
+				continue
+			}
+		}
+		v := resolve(r.Results[0])
+		if !isFactoryValue(v) {
+			continue
+		}
+		n2++
+		con := fmt.Sprintf("factory result returned (success return #%d of Get)", n2)
+		c.Check(storedBefore(get, r, 0), "R2", con, r.Pos(), "stored in the instance table under the requested name before it is returned",
 			"a factory-built instance is returned without being memoised under its name — the factory runs again and later requests get a different instance")
 	}
 	c.Floor("R2", n2, 1)
@@ -477,6 +526,46 @@ func rulesC10(c *Ctx) {
 				why+" — AddFactory(n)+SetDefault(n) (in either order) resolves n to the default")
 		})
 	}
+	// stores made by a private stage of Get: judged at the call site(s) in Get
+	for _, gfn := range getGroupList {
+		if gfn == get {
+			continue
+		}
+		eachInstr(gfn, func(_ *ssa.BasicBlock, _ int, in ssa.Instruction) {
+			mu, ok := in.(*ssa.MapUpdate)
+			if !ok {
+				return
+			}
+			if n, _ := fieldLoadName(mu.Map); n != ro.inst {
+				return
+			}
+			fromDefault := false
+			for _, o := range Origins(mu.Value, FlowOpts{Interproc: 2}) {
+				if o.Kind == "field" && (strings.HasSuffix(o.Name, "."+ro.defInst) || strings.HasSuffix(o.Name, "."+ro.defFact)) {
+					fromDefault = true
+				}
+			}
+			gf := factsFor(get)
+			for _, site := range rootSites(get, gfn, getGroup) {
+				// does this call hand a default-table value (or default factory) to the stage?
+				siteDefault := fromDefault
+				for _, a := range site.Common.Args {
+					if dependsOnField(a, defTables, 0, map[ssa.Value]bool{}) != "" {
+						siteDefault = true
+					}
+				}
+				if !siteDefault {
+					continue
+				}
+				n5++
+				con := fmt.Sprintf("store of a default-table value into the instance table in %s (called from Get)", fname(gfn))
+				mi := tableMiss(get, gf, site.Block, ro.inst, get.Params[1])
+				mf := tableMiss(get, gf, site.Block, ro.fact, get.Params[1])
+				c.Check(mi && mf && isNameOfGet(gfn, mu.Key), "R5", con, site.Pos(), "the stage is called on the miss edges of both explicit tables for that name",
+					"the stage that stores a default-table value is not confined to the miss edges of both explicit tables — AddFactory(n)+SetDefault(n) (in either order) resolves n to the default")
+			}
+		})
+	}
 	c.Floor("R5", n5, 2)
 
 	// ---- R6 duplicates refused / explicit wins at definition time -------------------------------
@@ -549,6 +638,70 @@ func rulesC10(c *Ctx) {
 					}
 					if !dominates(ic[0].Instr, ci.Instr) {
 						okc = false
+					}
+				}
+			}
+		}
+		if !okc && len(ic) == 0 {
+			// the test and/or the factory calls live in private stages of Get
+			gg := map[*ssa.Function]bool{}
+			for _, g := range privateGroup(c.P, get, true) {
+				gg[g] = true
+			}
+			gf := factsFor(get)
+			var testSite *ssa.Call
+			for g := range gg {
+				if g == get || len(CallsTo(g, qualName(isCalled))) == 0 || errResultIndex(g.Signature) < 0 {
+					continue
+				}
+				// g returns nil only where the scan said "not being resolved"
+				hf := factsFor(g)
+				sc := CallsTo(g, qualName(isCalled))[0]
+				good := true
+				for _, r := range returnsOf(g) {
+					ev := r.Results[errResultIndex(g.Signature)]
+					if hf.HoldsOnAllEdges(r.Block(), func(fs factSet) bool { return knownNilIn(fs, ev, false) }) {
+						continue
+					}
+					if !hf.KnownBool(r.Block(), sc.Value(), false) {
+						good = false
+					}
+				}
+				if !good {
+					continue
+				}
+				for _, site := range rootSites(get, g, gg) {
+					if call, ok := site.Instr.(*ssa.Call); ok {
+						testSite = call
+					}
+				}
+			}
+			if testSite != nil {
+				okc = true
+				ev := firstOr(resultN(testSite, errResultIndex(testSite.Call.Signature())))
+				if testSite.Call.Signature().Results().Len() == 1 {
+					ev = testSite
+				}
+				for g := range gg {
+					for _, ci := range Calls(g) {
+						if ci.Static != nil || ci.Method != nil || ci.Kind != "call" {
+							continue
+						}
+						if _, isB := ci.Common.Value.(*ssa.Builtin); isB {
+							continue
+						}
+						// a factory call: every way to it from Get passes the test with a nil result
+						var sites []*CallInfo
+						if g == get {
+							sites = []*CallInfo{ci}
+						} else {
+							sites = rootSites(get, g, gg)
+						}
+						for _, s := range sites {
+							if !dominates(testSite, s.Instr) || ev == nil || !gf.HoldsOnAllEdges(s.Block, func(fs factSet) bool { return knownNilIn(fs, ev, true) }) {
+								okc = false
+							}
+						}
 					}
 				}
 			}
@@ -946,4 +1099,49 @@ func ruleBuiltinsAreDefaults(c *Ctx) {
 		}
 	}
 	c.Check(nDef > 0, "R9", "built-ins are registered as defaults", 0, fmt.Sprintf("%d default registrations, no explicit one outside package dependency", nDef), "no default registration found; cannot certify")
+}
+
+// rootSites: the call instructions in root through which function g of root's
+// private group is (transitively) reached.
+func rootSites(root, g *ssa.Function, group map[*ssa.Function]bool) []*CallInfo {
+	var out []*CallInfo
+	var reaches func(f *ssa.Function, depth int) bool
+	reaches = func(f *ssa.Function, depth int) bool {
+		if f == g {
+			return true
+		}
+		if depth > 3 || !group[f] {
+			return false
+		}
+		for _, ci := range Calls(f) {
+			if ci.Static != nil && group[ci.Static] && ci.Static != f && reaches(ci.Static, depth+1) {
+				return true
+			}
+		}
+		return false
+	}
+	for _, ci := range Calls(root) {
+		if ci.Static != nil && group[ci.Static] && ci.Static != root && reaches(ci.Static, 0) {
+			out = append(out, ci)
+		}
+	}
+	return out
+}
+
+// dependsOnFieldLifted: v (a function value about to be called) comes from one of
+// the named table fields, possibly through parameters of private stages.
+func dependsOnFieldLifted(v ssa.Value, tables map[string]bool) bool {
+	for _, o := range Origins(v, FlowOpts{LiftParams: 3}) {
+		if o.Kind == "field" {
+			for t := range tables {
+				if strings.HasSuffix(o.Name, "."+t) {
+					return true
+				}
+			}
+		}
+		if n := dependsOnField(o.Val, tables, 0, map[ssa.Value]bool{}); n != "" {
+			return true
+		}
+	}
+	return false
 }
